@@ -322,6 +322,40 @@ def run(ctx):
     ctx.instance(1)
     ctx.finish_rule()
 
+    # ------------------------------------------------------------------ R6
+    ctx.rule("C17.R6", "the debugger reads names with the assembler's alphabet: a register is r/R + 0-7 + end of identifier, labels use the lexer's identifier characters", floor=3)
+    from .. import tables
+    ISID = "lace::lexer::is_id"
+    LBL = "lace::debugger::command::parse::label::"
+    ctx.fn(ISID)
+    idset = tables.char_pred_set(prog, ISID)
+    ctx.need(len(idset) == 63, "lexer identifier alphabet (a-z A-Z 0-9 _): %d characters" % len(idset))
+    for nm_, want, what in ((LBL + "can_contain", idset, "label continuation"), (LBL + "can_start_with", {c for c in idset if not (48 <= c <= 57)}, "label start")):
+        ctx.fn(nm_)
+        got = tables.char_pred_set(prog, nm_)
+        ctx.instance(1)
+        ok = got == want
+        ctx.oblig(ok, {what: tables.show_chars(got)}, "lexer identifier characters" + ("" if what == "label continuation" else " minus digits"))
+        if not ok:
+            ctx.violation("label-alphabet|%s" % what, prog.fns[nm_].file_line(), "the debugger's %s characters are {%s}, the assembler's are {%s}: labels the assembler defines cannot be named, or names it never defines are accepted"
+                          % (what, tables.show_chars(got), tables.show_chars(want)))
+    sr = ctx.fn("lace::debugger::command::parse::naive::NaiveType::is_str_register")
+    preds = []
+    for b, t, c in sr.calls():
+        if c and c.endswith("Option::<T>::is_some_and"):
+            for cl in t["f"].get("closures", []):
+                preds.append((b, cl[3:] if cl.startswith("fn:") else cl))
+    ctx.need(len(preds) == 3, "three character tests in the register classifier (found %d)" % len(preds))
+    sets_ = [tables.char_pred_set(prog, n) for b, n in preds]
+    ctx.instance(1)
+    ok = sets_[0] == {ord("r"), ord("R")} and sets_[1] == set(range(ord("0"), ord("8"))) and sets_[2] == idset
+    ctx.oblig(ok, {"register classifier": [tables.show_chars(x) for x in sets_]}, "[rR] [0-7] then no identifier character")
+    if not ok:
+        ctx.violation("register-shape", sr.file_line(), "the argument classifier calls a name a register when it reads {%s}{%s} not followed by {%s}; the lexer's registers are [rR][0-7] "
+                      "not followed by an identifier character {%s}: names such as r10 are labels for the assembler but registers for the debugger"
+                      % (tables.show_chars(sets_[0]), tables.show_chars(sets_[1]), tables.show_chars(sets_[2]), tables.show_chars(idset)))
+    ctx.finish_rule()
+
 
 def kit_fields(p):
     return [e.get("n") for e in p.get("pr", []) if isinstance(e, dict) and "f" in e]
